@@ -177,7 +177,7 @@ func (rf *RecFacts) leafClass(typ string) string {
 		return "struct"
 	}
 	switch typ {
-	case genfacts.StructA, genfacts.StructE, genfacts.StructR, "ISt", "IBs":
+	case genfacts.StructA, genfacts.StructE, genfacts.StructR, genfacts.StructM, "ISt", "IBs":
 		return "struct"
 	case genfacts.MessageA, genfacts.MessageE, "IMs":
 		return "message"
@@ -398,6 +398,22 @@ func checkC01(c *core.Ctx) {
 			}
 		}
 		_ = bw
+		// R8: the byte decoders step over everything they decode (a nested record
+		// left under the cursor makes every later field read the wrong bytes)
+		for _, m := range []string{mBR, mBRu} {
+			if mf := rf.M[m]; mf.Present {
+				bad := false
+				for _, f := range mf.Fails {
+					if f.Rule == "cursor" {
+						bad = true
+						c.Check("R8", failKey(rf, m, f), anchorPos(gr.p, rf.Spec.Kind, m), false, f.Msg+" — "+rf.where(f.Pos))
+					}
+				}
+				if !bad {
+					c.Check("R8", m+" steps over what it decodes "+bodyKeyAll(rf), anchorPos(gr.p, rf.Spec.Kind, m), true, "")
+				}
+			}
+		}
 		// R6: decoders bound a message/union body by its length prefix, so the
 		// prefix the encoders write (Size()-K) must be the exact number of bytes
 		// that follow: Size() has to equal what EncodeBebop writes.
@@ -525,6 +541,10 @@ func checkC02(c *core.Ctx) {
 		// R3: the MarshalBebop wrapper
 		gr.checkMarshalWrapper(rf)
 	}
+	// R6: the byte-slice primitives store every byte of their width (a skipped
+	// store is invisible in a zeroed buffer, which is all MarshalBebop uses)
+	iohelpLayoutRules(c, gr.p, "R6", "R6g", "R6b")
+	iohelpStreamWidths(c, gr.p, "R6s")
 	gr.sample(3)
 }
 
